@@ -86,6 +86,39 @@ def expected_full(src, r):
     return out
 
 
+OFFSET_KEYS = ('start', 'sel_end', 'brace', 'close', 'end', 'name_end', 'colon', 'vs', 've', 'semi')
+
+
+def with_statement(src, recs, rng):
+    """the same sheet with one value-less statement (`@include zz;`) put in as the FIRST item of a rule that has items.  Every recorded offset behind it
+    moves; the statement itself is recorded the way the matcher treats such a name: a first child by its name range, without a value (positions inside
+    it are not judged: match() and balanced_outward() look through it)"""
+    rules = [r for r in recs if r['type'] == 'rule' and r['items']]
+    if not rules:
+        return None
+    target = rng.choice(rules)
+    at = target['brace'] + 1
+    stmt = rng.choice(['@include zz', '@extend %y', '.mixin()', '@include m($a, 1px)'])
+    ins = rng.choice([' ', '\n  ']) + stmt + ';'
+    L = len(ins)
+    js = to_json(recs)
+    ti = [i for i, r in enumerate(recs) if r is target][0]
+    for d in js:
+        for k in OFFSET_KEYS:
+            if isinstance(d.get(k), int) and d[k] >= at:
+                d[k] += L
+        d['tr'] = [[a + L if a >= at else a, b + L if b >= at else b] for a, b in d.get('tr', [])]
+    s0 = at + len(ins) - len(stmt) - 1
+    js.append({'type': 'decl', 'start': s0, 'name_end': s0 + len(stmt), 'colon': None, 'vs': None, 've': None, 'semi': s0 + len(stmt), 'end': s0 + len(stmt),
+               'parent': ti, 'toks': [], 'tr': [], 'sip': False, 'statement': True})
+    new = from_json(js)
+    st = new[-1]
+    par = new[ti]
+    par['items'].remove(st)
+    par['items'].insert(0, st)
+    return src[:at] + ins + src[at:], new, (at, at + L)
+
+
 def check_doc(src, recs, ctx, cm, positions=None, d2=False):
     ctx.ev('document')
     docase = {'src': src, 'truth': to_json(recs), 'd2': d2}
@@ -201,6 +234,12 @@ def run_shard(desc, ctx):
             if len(src) > 900:
                 continue
             check_doc(src, recs, ctx, cm, d2=d2)
+            if k % 5 == 1 and not d2:
+                ws = with_statement(src, recs, rng)
+                if ws is not None and len(ws[0]) <= 700:
+                    ctx.ev('document:with-statement')
+                    lo, hi = ws[2]
+                    check_doc(ws[0], ws[1], ctx, cm, positions=[q for q in range(len(ws[0]) + 1) if not (lo <= q <= hi)])
     finally:
         pr.uninstall()
     for k, v in pr.reach().items():
